@@ -32,8 +32,12 @@ type Case struct {
 	RespHeaders []origin.HV `json:"resp_headers"`
 	RespBodyLen int         `json:"resp_body_len"`
 	RespChunked bool        `json:"resp_chunked"`
-	Deliveries  int         `json:"deliveries"`  // 1 = relayed only, 2 = second request too (from the store when storable)
-	RangeFirst  bool        `json:"range_first"` // a Range GET of the same target is made between the deliveries (the raw origin ignores Range, so the proxy slices its stored copy)
+	Deliveries  int         `json:"deliveries"` // 1 = relayed only, 2 = second request too (from the store when storable)
+	// Via416: the client's GET carries a Range, the origin refuses ranged requests with 416 and gives its
+	// scripted (non-200, hence never stored) answer to the proxy's retry without Range: the client must get
+	// that answer - status, headers and body - not a mixture with the 416
+	Via416     bool `json:"via_416,omitempty"`
+	RangeFirst bool `json:"range_first"` // a Range GET of the same target is made between the deliveries (the raw origin ignores Range, so the proxy slices its stored copy)
 }
 
 func canon(k string) string { return textproto.CanonicalMIMEHeaderKey(k) }
@@ -83,15 +87,20 @@ func runCase(c Case, o *ev.Obs) *ev.Failure {
 		if c.Method == "HEAD" || noBodyStatus(c.Status) {
 			respBody = nil
 		}
+		via416 := c.Via416 && c.Method == "GET" && c.Status != 200 && c.Status != 206 && c.Status != 416 && c.ReqBodyLen == 0
 		org := origin.NewRaw(func(r *http.Request, body []byte, e *origin.Entry) origin.RawResponse {
+			if via416 && r.Header.Get("Range") != "" {
+				return origin.RawResponse{Status: 416, Headers: []origin.HV{{K: "Content-Range", V: fmt.Sprintf("bytes */%d", c.RespBodyLen)}, {K: "X-From-416", V: "1"}}, Body: []byte("range refused")}
+			}
 			hs := []origin.HV{{K: "Date", V: "Mon, 02 Jan 2006 15:04:05 GMT"}, {K: "Content-Type", V: "text/x-verif"}}
 			hs = append(hs, c.RespHeaders...)
 			return origin.RawResponse{Status: c.Status, Headers: hs, Body: origin.Content("c08", 1, c.RespBodyLen),
 				Chunked: c.RespChunked && !noBodyStatus(c.Status), NoBody: r.Method == "HEAD" || noBodyStatus(c.Status), NoCL: noBodyStatus(c.Status)}
 		})
 		defer org.Close()
-		env := px.New(px.Opts{Backend: c.Backend})
+		env := px.New(px.Opts{Backend: c.Backend, Retry416: true})
 		defer env.Close()
+		o.Classf("via-416:%v", via416)
 
 		multi, hopNom, hasBody := false, false, c.ReqBodyLen > 0
 		cnt := map[string]int{}
@@ -129,6 +138,9 @@ func runCase(c Case, o *ev.Obs) *ev.Failure {
 			}
 			rid := fmt.Sprintf("d%d", d)
 			req := px.Req{Method: c.Method, Host: org.Addr(), Target: c.Target, Headers: c.ReqHeaders, Body: reqBody, Chunked: c.ReqChunked && c.ReqBodyLen > 0, ReqID: rid}
+			if via416 {
+				req.Headers = append(append([]px.H{}, c.ReqHeaders...), px.H{K: "Range", V: "bytes=1-2"})
+			}
 			before := org.Len()
 			resp, err := env.Via(c.Transport, req)
 			// the net/http body hand-over artefact (see px.Plain) breaks the upstream read in the middle of the
@@ -155,6 +167,14 @@ func runCase(c Case, o *ev.Obs) *ev.Failure {
 			for _, e := range seen {
 				if f := checkRequest(c, reqBody, e); f != nil {
 					return f
+				}
+			}
+			if via416 {
+				if len(seen) < 2 || seen[0].Header.Get("Range") == "" || seen[len(seen)-1].Header.Get("Range") != "" {
+					return ev.Failf("relay.via-416.no-retry", "delivery %d: expected the client's ranged request and then a retry without Range at the origin, saw %d requests", d, len(seen))
+				}
+				if resp.Header.Get("X-From-416") != "" || resp.Header.Get("Content-Range") != "" {
+					return ev.Failf("relay.resp.header-invented:from-the-416", "delivery %d: the client's answer (status %d) carries fields of the origin's 416 (Content-Range %q)", d, resp.Status, resp.Header.Get("Content-Range"))
 				}
 			}
 			if d == 1 && len(seen) == 0 {
@@ -208,6 +228,9 @@ func checkRequest(c Case, reqBody string, e origin.Entry) *ev.Failure {
 		switch k {
 		case "User-Agent", "Accept-Encoding", "X-Verif-Req", "Content-Length", "Transfer-Encoding", "Connection":
 			continue
+		}
+		if k == "Range" && c.Via416 && len(got) == 1 && got[0] == "bytes=1-2" {
+			continue // the Range the harness added for the via-416 variant (first origin request)
 		}
 		if k == "Cache-Control" && len(got) == 1 && got[0] == "no-cache" && sent.Get("Pragma") == "no-cache" {
 			continue // net/http's request reader adds this for "Pragma: no-cache" (origin-side parsing artefact)
@@ -410,6 +433,7 @@ func drawCase(t *rapid.T) Case {
 		RespBodyLen: rapid.SampledFrom([]int{0, 1, 17, 1000, 5000, 70000, 1 << 20}).Draw(t, "resp_len"),
 		RespChunked: rapid.IntRange(0, 2).Draw(t, "resp_chunked") == 0,
 		Deliveries:  rapid.SampledFrom([]int{1, 2, 2}).Draw(t, "deliveries"),
+		Via416:      rapid.IntRange(0, 3).Draw(t, "via416") == 0,
 	}
 	if c.RespBodyLen == 1<<20 && rapid.IntRange(0, 3).Draw(t, "big") != 0 {
 		c.RespBodyLen = 300
